@@ -8,6 +8,8 @@
  *   intr f=<intrinsic> w=<8|16|32> imm=<k> [k=<mask>] a=<hex> [b=<hex>] [m=<hex>] -> ok <hex> | unsupported
  *   logf x=<hex 16 bytes> / expf x=<..>         -> ok <hex 16 bytes> ref=<hex 16 bytes: libm logf/expf per lane>
  *   vec op=<routine> x=<hex> [y=<hex>] [s=<bits>] [n=<int>] -> ok <scalar bits | hex vector | integer | status>
+ *   cmpold op=<D|F> a=<bits> b=<bits> s=<bits>   -> ok <0|1>   esl_{D,F}Compare_old (easel.c)
+ *   cvt op=<D2F|F2D|I2F|I2D> x=<hex>             -> ok <hex vector>
  *   sweep f=<logf|expf> lo=<u32> hi=<u32>       -> ok n=.. maxulp=.. worst=.. bad=.. first_bad=.. (C only; exhaustive tier)
  */
 #include "esl_vectorops.c"   /* first: gives access to the static qsort comparators (the linker then keeps this copy of the esl_vec_* functions) */
@@ -416,6 +418,8 @@ static void op_vec(void)
     else if (!strcmp(op, "RelEntropy")) h_out("ok %s", DB(esl_vec_DRelEntropy(x, y, n)));
     else if (!strcmp(op, "CDF"))      { double *c = malloc(8*n + 8); esl_vec_DCDF(x, n, c); out_dvec(c, n); free(c); }
     else if (!strcmp(op, "CDFInPlace")) { esl_vec_DCDF(x, n, x); out_dvec(x, n); }
+    else if (!strcmp(op, "Compare"))  h_out("ok %d", esl_vec_DCompare(x, y, n, sd));
+    else if (!strcmp(op, "MatCompare")) { int M = (int) h_argi("m", 1); double **A = esl_mat_DCreate(M, (int)(n / M)), **B = esl_mat_DCreate(M, (int)(n / M)); memcpy(A[0], x, 8*n); memcpy(B[0], y, 8*n); h_out("ok %d", esl_mat_DCompare(A, B, M, (int)(n / M), sd)); esl_mat_DDestroy(A); esl_mat_DDestroy(B); }
     else if (!strcmp(op, "Validate")) { char eb[eslERRBUFSIZE]; int st; memset(eb, 0x55, sizeof eb); st = esl_vec_DValidate(x, n, sd, eb); h_out("ok %s %s", h_status(st), eb[0] ? "msg" : "nomsg"); }
     else if (!strcmp(op, "LogValidate")) { char eb[eslERRBUFSIZE]; int st; memset(eb, 0x55, sizeof eb); st = esl_vec_DLogValidate(x, n, sd, eb); h_out("ok %s %s", h_status(st), eb[0] ? "msg" : "nomsg"); }
     else if (!strcmp(op, "Log2Validate")) { char eb[eslERRBUFSIZE]; int st; memset(eb, 0x55, sizeof eb); st = esl_vec_DLog2Validate(x, n, sd, eb); h_out("ok %s %s", h_status(st), eb[0] ? "msg" : "nomsg"); }
@@ -457,6 +461,8 @@ static void op_vec(void)
     else if (!strcmp(op, "Entropy"))  h_out("ok %s", FB(esl_vec_FEntropy(x, n)));
     else if (!strcmp(op, "RelEntropy")) h_out("ok %s", FB(esl_vec_FRelEntropy(x, y, n)));
     else if (!strcmp(op, "CDF"))      { float *c = malloc(4*n + 4); esl_vec_FCDF(x, n, c); out_fvec(c, n); free(c); }
+    else if (!strcmp(op, "Compare"))  h_out("ok %d", esl_vec_FCompare(x, y, n, sf));
+    else if (!strcmp(op, "MatCompare")) { int M = (int) h_argi("m", 1); float **A = esl_mat_FCreate(M, (int)(n / M)), **B = esl_mat_FCreate(M, (int)(n / M)); memcpy(A[0], x, 4*n); memcpy(B[0], y, 4*n); h_out("ok %d", esl_mat_FCompare(A, B, M, (int)(n / M), sf)); esl_mat_FDestroy(A); esl_mat_FDestroy(B); }
     else if (!strcmp(op, "Validate")) { char eb[eslERRBUFSIZE]; int st; memset(eb, 0x55, sizeof eb); st = esl_vec_FValidate(x, n, sf, eb); h_out("ok %s %s", h_status(st), eb[0] ? "msg" : "nomsg"); }
     else if (!strcmp(op, "LogValidate")) { char eb[eslERRBUFSIZE]; int st; memset(eb, 0x55, sizeof eb); st = esl_vec_FLogValidate(x, n, sf, eb); h_out("ok %s %s", h_status(st), eb[0] ? "msg" : "nomsg"); }
     else if (!strcmp(op, "Log2Validate")) { char eb[eslERRBUFSIZE]; int st; memset(eb, 0x55, sizeof eb); st = esl_vec_FLog2Validate(x, n, sf, eb); h_out("ok %s %s", h_status(st), eb[0] ? "msg" : "nomsg"); }
@@ -482,6 +488,8 @@ static void op_vec(void)
     else if (!strcmp(op, "Increment")){ esl_vec_IIncrement(x, n, (int) h_argi("k", 1)); h_out("ok %s", h_hex(x, 4*n)); }
     else if (!strcmp(op, "Add"))      { esl_vec_IAdd(x, y, n); h_out("ok %s", h_hex(x, 4*n)); }
     else if (!strcmp(op, "AddScaled")){ esl_vec_IAddScaled(x, y, (int) h_argi("k", 1), n); h_out("ok %s", h_hex(x, 4*n)); }
+    else if (!strcmp(op, "Compare"))  h_out("ok %d", esl_vec_ICompare(x, y, n));
+    else if (!strcmp(op, "MatCompare")) { int M = (int) h_argi("m", 1); int **A = esl_mat_ICreate(M, (int)(n / M)), **B = esl_mat_ICreate(M, (int)(n / M)); memcpy(A[0], x, 4*n); memcpy(B[0], y, 4*n); h_out("ok %d", esl_mat_ICompare(A, B, M, (int)(n / M))); esl_mat_IDestroy(A); esl_mat_IDestroy(B); }
     else if (!strcmp(op, "MatSet"))   { int M = (int) h_argi("m", 1); int **A = esl_mat_ICreate(M, (int)(n / M)); memcpy(A[0], x, 4*n); esl_mat_ISet(A, M, (int)(n / M), (int) h_argi("k", 1)); h_out("ok %s", h_hex(A[0], 4*n)); esl_mat_IDestroy(A); }
     else if (!strcmp(op, "MatCopy"))  { int M = (int) h_argi("m", 1); int **A = esl_mat_ICreate(M, (int)(n / M)), **B = esl_mat_ICreate(M, (int)(n / M)); memcpy(A[0], x, 4*n); esl_mat_ICopy(A, M, (int)(n / M), B); h_out("ok %s", h_hex(B[0], 4*n)); esl_mat_IDestroy(A); esl_mat_IDestroy(B); }
     else if (!strcmp(op, "MatScale")) { int M = (int) h_argi("m", 1); int **A = esl_mat_ICreate(M, (int)(n / M)); memcpy(A[0], x, 4*n); esl_mat_IScale(A, M, (int)(n / M), (int) h_argi("k", 1)); h_out("ok %s", h_hex(A[0], 4*n)); esl_mat_IDestroy(A); }
@@ -506,6 +514,7 @@ static void op_vec(void)
     else if (!strcmp(op, "Increment")){ esl_vec_LIncrement(x, n, h_argi("k", 1)); h_out("ok %s", h_hex(x, 8*n)); }
     else if (!strcmp(op, "Add"))      { esl_vec_LAdd(x, y, n); h_out("ok %s", h_hex(x, 8*n)); }
     else if (!strcmp(op, "AddScaled")){ esl_vec_LAddScaled(x, y, h_argi("k", 1), n); h_out("ok %s", h_hex(x, 8*n)); }
+    else if (!strcmp(op, "Compare"))  h_out("ok %d", esl_vec_LCompare(x, y, n));
     else h_out("bad-op");
   } else if (T == 'W' && !strcmp(op, "MatCopy")) {
     int16_t *x = (int16_t *) xb, *r, **A, **B; int M = (int) h_argi("m", 1), N, i; n = nx / 2; N = (int)(n / M); r = malloc(2*n + 2);
@@ -599,6 +608,30 @@ static void op_cmp(void)
   h_out("ok %d", r < 0 ? -1 : r > 0 ? 1 : 0);
 }
 
+/* esl_{D,F}Compare_old (easel.c), the scalar test behind esl_vec_{D,F}Compare */
+static void op_cmpold(void)
+{
+  const char *op = h_arg("op"); uint64_t ua = strtoull(h_arg("a") ? h_arg("a") : "0", NULL, 16), ub = strtoull(h_arg("b") ? h_arg("b") : "0", NULL, 16), us = strtoull(h_arg("s") ? h_arg("s") : "0", NULL, 16);
+  if (!op) { h_out("bad-op"); return; }
+  if (op[0] == 'D') { double a, b, t; memcpy(&a, &ua, 8); memcpy(&b, &ub, 8); memcpy(&t, &us, 8); h_out("ok %d", esl_DCompare_old(a, b, t)); }
+  else if (op[0] == 'F') { float a, b, t; uint32_t wa = (uint32_t) ua, wb = (uint32_t) ub, wt = (uint32_t) us; memcpy(&a, &wa, 4); memcpy(&b, &wb, 4); memcpy(&t, &wt, 4); h_out("ok %d", esl_FCompare_old(a, b, t)); }
+  else h_out("bad-op");
+}
+
+/* esl_vec_D2F / F2D / I2F / I2D */
+static void op_cvt(void)
+{
+  const char *op = h_arg("op"); int64_t nx = 0, n; unsigned char *xb = NULL;
+  if (!op) { h_out("bad-op"); return; }
+  if (h_arg("x")) xb = h_unhex(h_arg("x"), &nx);
+  if      (!strcmp(op, "D2F")) { float  *r; n = nx / 8; r = malloc(4*n + 4); esl_vec_D2F((double *) xb, n, r); out_fvec(r, n); free(r); }
+  else if (!strcmp(op, "F2D")) { double *r; n = nx / 4; r = malloc(8*n + 8); esl_vec_F2D((float *)  xb, n, r); out_dvec(r, n); free(r); }
+  else if (!strcmp(op, "I2F")) { float  *r; n = nx / 4; r = malloc(4*n + 4); esl_vec_I2F((int *)    xb, n, r); out_fvec(r, n); free(r); }
+  else if (!strcmp(op, "I2D")) { double *r; n = nx / 4; r = malloc(8*n + 8); esl_vec_I2D((int *)    xb, n, r); out_dvec(r, n); free(r); }
+  else h_out("bad-op");
+  free(xb);
+}
+
 static void h_op(void)
 {
   const char *op = h_words[0];
@@ -612,6 +645,8 @@ static void h_op(void)
   else if (!strcmp(op, "vec"))   op_vec();
   else if (!strcmp(op, "mat"))   op_mat();
   else if (!strcmp(op, "cmp"))   op_cmp();
+  else if (!strcmp(op, "cmpold")) op_cmpold();
+  else if (!strcmp(op, "cvt"))   op_cvt();
   else h_out("bad-op");
 }
 
